@@ -41,13 +41,13 @@ def _case(draw):
     elif form == 'scalar':
         req = [draw(st.sampled_from(sc))]
     else:
-        req = draw(st.lists(st.sampled_from(sc), min_size=1, max_size=k, unique=True))
+        req = draw(st.lists(st.sampled_from(sc), min_size=0, max_size=k, unique=True))       # incl. the empty request
     err = draw(st.sampled_from([None] * 12 + ['uncovered', 'len_mismatch']))
     uncovered = [j for j in range(D) if j not in sc]
     if err == 'uncovered' and not uncovered:
         err = 'len_mismatch'
     return dict(spec=spec, container=container, default_sc=default_sc, sc=sc, sc_spell=[draw(st.booleans()) for _ in sc],
-                curves=[[c, p] for c, p in zip(cs, ps)], form=form, req=req, req_spell=[draw(st.booleans()) for _ in req],
+                curves=[[c, p] for c, p in zip(cs, ps)], form=form, req=req, req_spell=[draw(st.sampled_from(['name', 'pos', 'neg', 'name', 'pos'])) for _ in req],
                 perm_seed=draw(st.integers(0, 2 ** 16)), err=err, via_get_transform=draw(st.integers(0, 3)) == 0,
                 to_rfi_first=draw(st.booleans()))
 
@@ -76,7 +76,8 @@ def check(case, obs):
         data = data.astype(data.dtype.newbyteorder('=')).copy()
     sc, req = case['sc'], case['req']
     k = len(sc)
-    sp = lambda j, by_name: names[j] if (by_name and not is_array) else j
+    from pbt.props.c03 import _spell
+    sp = lambda j, how: _spell(j, how, names, is_array)
     sc_ch = [sp(j, s) for j, s in zip(sc, case['sc_spell'])]
     req_ch = [sp(j, s) for j, s in zip(req, case['req_spell'])]
     curves = [_curve(c, p) for c, p in case['curves']]
@@ -90,7 +91,7 @@ def check(case, obs):
         obs.nontrivial = True
         if case['err'] == 'uncovered':
             unc = [j for j in range(D) if j not in sc][0]
-            bad = req_ch + [sp(unc, case['req_spell'][0])]
+            bad = req_ch + [sp(unc, (case['req_spell'] or ['name'])[0])]
             out = call(tr.to_mef, data, bad, curves, sc_ch)
             out2 = call(tr.to_mef, data, sp(unc, True), curves, sc_ch)
             obs.claim('refuse', raised(out) and raised(out2), 'a channel without standard curve was passed through')
@@ -103,6 +104,13 @@ def check(case, obs):
     before = fingerprint(data)
     out = call(tr.to_mef, data, ch_arg, curves, sc_arg)
     obs.claim('input_intact', not fp_diff(before, fingerprint(data)), 'to_mef changed its argument')
+    if any(s_ == 'neg' for s_ in case['req_spell']) and form != 'none':
+        # a position counted from the end: the statement allows converting it with its own curve or refusing it,
+        # never passing it through unconverted (checked below by `paired`)
+        obs.label('negative_position')
+        if raised(out):
+            obs.claims['refuse'] += 1
+            return
     if not obs.claim('returns', not raised(out), lambda: 'to_mef(%r, sc_channels=%r) raised %r' % (ch_arg, sc_arg, out)):
         return
     x = np.asarray(data, dtype=np.float64)
